@@ -1,5 +1,12 @@
 import Ypv.Props.C03
 #print axioms Ypv.C03.set_step_eq_spec
-#print axioms Ypv.C03.set_eq_spec_partial
+#print axioms Ypv.C03.set_eq_spec
+#print axioms Ypv.C03.set_ok_eq_spec
 #print axioms Ypv.C03.set_frame
 #print axioms Ypv.C03.set_keeps_anchors
+#print axioms Ypv.C03.set_preserves_anchorWF
+#print axioms Ypv.C03.set_preserves_anchorWF_model
+#print axioms Ypv.C03.opAbs_total
+#print axioms Ypv.C03.opAbs_sound
+#print axioms Ypv.C03.history_refines
+#print axioms Ypv.C03.history_refines_det
